@@ -5,7 +5,7 @@ import GIV.Lemmas.ImportsBuild
 import GIV.Lemmas.ImportsBuildSpec
 
 namespace GIV.C19
-open GIV GIV.Build GIV.Gen.Imports
+open GIV GIV.Build GIV.Gen.ImportsBuild
 
 /-! ### the generated constants are the property's constants -/
 theorem tagLinux_eq : tagLinux = linux := by decide
